@@ -211,8 +211,11 @@ theorem C15_new_reVer_none (s : NState) (j : Nat) (v : XKey) :
 made by `NewMaster`, `Neuter`, parsing, and every `Child`-descendant of such a key — also every key
 after `SetNet`). Its view at the end is its view after `pre` transformed by exactly the library
 `SetNet j`/`Zero j` operations of `post`: no operation on any other key — raw-constructed, sharing
-buffers or not — and no caller action has any influence. This is `C15_independent` for histories
-containing raw constructions and caller writes. -/
+buffers or not — and no caller action *of the model* has any influence. This is `C15_independent` for histories
+containing raw constructions and caller writes. (One alias is outside the model, as in `HDHeap`: the version slice
+stored by `NewMaster` / `SetNet` points into the array inside the caller's `*chaincfg.Params`; a caller that mutates
+its `Params` afterwards changes the version bytes of such keys and of their `Child` descendants. The library never
+writes there and `Zero` only drops the slice, so C15 is unaffected.) -/
 theorem C15_new_derived_independent (hX : ExtOK X) (pre post : List NOp)
     (hl : legitRun X {} (pre ++ post) = true) (j : Nat)
     (hj : j < (runN X {} pre).heap.keys.length) (hr : j ∉ (runN X {} pre).raw)
